@@ -49,8 +49,8 @@ def plan(tier, seed):
                         kinds = ['f'] if tier == 'quick' else ['f', 'i']
                         if heavy(sp.name) or mtm:
                             kinds = ['f']
-                        elif not var.get('omit') or tier != 'quick':
-                            kinds = kinds + ['u']       # unsigned integers ("Positive Integer" layers)
+                        elif not var.get('omit') and pts <= 3:
+                            kinds = kinds + ['u']       # unsigned integers ("Positive Integer" layers); not with data-derived thresholds or 4 control points (those integer + nonlinear queries came back unknown)
                         for kd in kinds:
                             jobs.append(dict(var, kind='def', cmd=sp.name, shape=shape, pts=pts, reps=rp, kinds=kd, k=1))
             if mtm and (tier != 'quick' or not var.get('bool', {}).get('IgnoreZeros')):
